@@ -68,6 +68,7 @@ f57bba0 C07
 cab7a79 C11
 3c606c4 C11
 dc646d3 C09
+0267e27 C11
 L
 fi
 mv $out.tmp $out
